@@ -55,9 +55,10 @@ type world struct {
 	// further statement on that Conn then fails with sql.ErrConnDone without reaching the driver),
 	// 5 = context.Canceled, 6 = an error wrapping sql.ErrConnDone; Prepare fails with 2 = a generic
 	// error, 4 = driver.ErrBadConn (surfaces as such)
-	delPat map[int][]int
-	trace  []Ev
-	healed bool
+	delPat    map[int][]int
+	commitPat map[int][]int // per resource, consumed per transaction COMMIT: 1 = fails (rolled back), 2 = driver.ErrBadConn (rolled back)
+	trace     []Ev
+	healed    bool
 }
 
 func (w *world) log(e Ev) {
@@ -115,12 +116,92 @@ func (fakeDriver) Open(string) (driver.Conn, error) {
 }
 
 type conn struct {
-	w *world
-	r int
+	w  *world
+	r  int
+	tx *tx // open local transaction: its deletes become durable (and visible in the trace) at Commit
 }
 
-func (c *conn) Begin() (driver.Tx, error) { return nil, errors.New("fakedb: no transactions") }
-func (c *conn) Close() error              { return nil }
+type tx struct {
+	c      *conn
+	staged []Ev // successful DELETEs of the transaction (Rm = rows they will remove)
+}
+
+func (c *conn) Begin() (driver.Tx, error) {
+	c.w.mu.Lock()
+	defer c.w.mu.Unlock()
+	if c.tx != nil {
+		return nil, errors.New("fakedb: transaction already open")
+	}
+	c.tx = &tx{c: c}
+	return c.tx, nil
+}
+
+func (c *conn) Close() error {
+	c.w.mu.Lock()
+	defer c.w.mu.Unlock()
+	if c.tx != nil {
+		c.tx.end(false)
+	}
+	return nil
+}
+
+// end applies or discards the staged deletes (w.mu held); discarded ones show as failed DELETEs
+func (t *tx) end(commit bool) {
+	w := t.c.w
+	for _, ev := range t.staged {
+		if commit {
+			var keep []Item
+			for _, row := range w.tables[t.c.r] {
+				del := false
+				for _, d := range ev.Rm {
+					del = del || d == row
+				}
+				if !del {
+					keep = append(keep, row)
+				}
+			}
+			w.tables[t.c.r] = keep
+			ev.Ok = true
+		} else {
+			ev.Ok, ev.Rm = false, nil
+		}
+		w.trace = append(w.trace, ev)
+	}
+	t.staged = nil
+	t.c.tx = nil
+}
+
+func (t *tx) Commit() error {
+	w := t.c.w
+	w.mu.Lock()
+	defer w.mu.Unlock()
+	if t.c.tx != t {
+		return errors.New("fakedb: transaction has already ended")
+	}
+	mode := 0
+	if !w.healed && len(w.commitPat[t.c.r]) > 0 {
+		mode = w.commitPat[t.c.r][0]
+		w.commitPat[t.c.r] = w.commitPat[t.c.r][1:]
+	}
+	t.end(mode == 0)
+	switch mode {
+	case 0:
+		return nil
+	case 2:
+		return driver.ErrBadConn
+	}
+	return errors.New("fakedb: commit failed (injected): transaction rolled back")
+}
+
+func (t *tx) Rollback() error {
+	w := t.c.w
+	w.mu.Lock()
+	defer w.mu.Unlock()
+	if t.c.tx == t {
+		t.end(false)
+	}
+	return nil
+}
 
 type cond struct {
 	col string
@@ -271,9 +352,17 @@ func (s *stmt) Exec(args []driver.Value) (driver.Result, error) {
 		}
 		return nil, errors.New("fakedb: delete failed (injected)")
 	}
+	staged := map[Item]bool{}
+	if s.c.tx != nil {
+		for _, e := range s.c.tx.staged {
+			for _, row := range e.Rm {
+				staged[row] = true
+			}
+		}
+	}
 	var keep []Item
 	for _, row := range w.tables[r] {
-		match := true
+		match := !staged[row]
 		if hasB {
 			in := false
 			for _, b := range branches {
@@ -293,6 +382,10 @@ func (s *stmt) Exec(args []driver.Value) (driver.Result, error) {
 		} else {
 			keep = append(keep, row)
 		}
+	}
+	if s.c.tx != nil {
+		s.c.tx.staged = append(s.c.tx.staged, ev)
+		return driver.RowsAffected(len(ev.Rm)), nil
 	}
 	w.tables[r] = keep
 	ev.Ok = true
